@@ -202,8 +202,11 @@ pub fn judge_doc<F: Flav>(bytes: &[u8], fmt: &str, origin: &str, rep: &mut Repor
                 Err(p) => msgs.push(format!("accepted graph cannot be walked: {}", p)),
                 Ok(m) => msgs.extend(m.into_iter().map(|x| format!("accepted graph breaks the invariant: {}", x))),
             }
+            let walkable = msgs.is_empty();
             match lenient.as_ref().and_then(declared) {
                 None => rep.count("accepted_but_not_readable_leniently"),
+                // a graph that cannot even be walked is already reported; do not walk it again
+                Some(_) if !walkable => {}
                 Some(d) => {
                     if d.undeclared_refs > 0 {
                         msgs.push(format!("document names {} undeclared key(s) in its edges but was accepted", d.undeclared_refs));
